@@ -75,7 +75,7 @@ Definition after_completion (fuel : nat) (pkt : option pdu) : D unit :=
     (handle_waiting_for_finished_ack
        (match fuel with
         | O => raise E_FUEL
-        | S k => s <- get ;; when (d_state s =? ST_BUSY) (non_idle_fsm k None)
+        | S k => catch_abandoned (s <- get ;; when (d_state s =? ST_BUSY) (non_idle_fsm k None))
         end) pkt).
 
 Definition success (e : event) : Prop :=
@@ -122,6 +122,11 @@ Proof.
   intros Hm Hh s HP. specialize (Hm s HP). unfold catch.
   destruct (m s) as [s1 [a|e]]; cbn [fst] in *; [exact Hm|].
   destruct (h e) as [k|] eqn:Hk; [|exact Hm]. apply (Hh e k Hk), Hm.
+Qed.
+Lemma pres_catch_abandoned (P : dst -> Prop) (m : D unit) : pres P P m -> pres P P (catch_abandoned m).
+Proof.
+  intro Hm. unfold catch_abandoned. apply pres_catch; [exact Hm|].
+  intros e k Hk. destruct (e =? E_ABANDONED); [|discriminate Hk]. inversion Hk; subst k. apply pres_ret.
 Qed.
 Lemma pres_fold {B} (P : dst -> Prop) (g : B -> D unit) (l : list B) : forall m0,
   pres P P m0 -> (forall b, pres P P (g b)) -> pres P P (fold_left (fun m b => bind m (fun _ => g b)) l m0).
@@ -314,9 +319,33 @@ Proof.
   - subst fh. unfold notice_of_cancellation. mr. cbn. split; [|intro X; vm_compute in X; discriminate X].
     revert Hn. unp. cbn. intuition (try discriminate; try congruence).
   - destruct (Z.eqb_spec fh FH_ABANDON) as [E2|E2].
-    + subst fh. unfold reset_internal. mr. cbn. split; [|intro X; vm_compute in X; discriminate X].
+    + (* ABANDON: the call is unwound (Err E_ABANDONED) in the reset state *)
+      subst fh. unfold reset_internal. mr. cbn.
       unp. cbn. intuition (try discriminate; try congruence).
     + mr. cbn. split; [|intros _]; revert Hn Hu; unp; cbn; intuition.
+Qed.
+
+(* the configured handler of Checksum Failure, after the declaration: with IGNORE the transaction is as it was *)
+Definition NICI (s : dst) : Prop :=
+  NI s /\ (forall fh, get_fault_handler (l_faults (d_cfg s)) C_CHECKSUM_FAILURE = Some fh -> (fh =? FH_IGNORE) = true -> U s).
+Lemma niu_nici : forall s, NIU s -> NICI s.
+Proof. intros s [H1 H2]. split; [exact H1 | intros; exact H2]. Qed.
+Lemma nici_ni : forall s, NICI s -> NI s.
+Proof. intros s [H1 _]. exact H1. Qed.
+
+Lemma df_cfg_ignore : pres NIU NICI (declare_fault C_CHECKSUM_FAILURE).
+Proof.
+  intros s [Hn Hu]. unfold declare_fault. mr.
+  destruct (p_tid (d_p s)) as [[a b]|] eqn:Ht; [|apply niu_nici; split; assumption].
+  destruct (get_fault_handler (l_faults (d_cfg s)) C_CHECKSUM_FAILURE) as [fh|] eqn:Eg; [|apply niu_nici; split; assumption].
+  destruct (Z.eqb_spec fh FH_CANCEL) as [E1|E1].
+  - subst fh. unfold notice_of_cancellation. mr. change (FH_CANCEL =? FH_ABANDON) with false. cbv iota. cbn [fst ret].
+    apply niu_nici. revert Hn Hu. unp. cbn. intuition (try discriminate; try congruence).
+  - destruct (Z.eqb_spec fh FH_ABANDON) as [E2|E2].
+    + subst fh. unfold reset_internal. mr. cbn [fst raise]. split.
+      * unp. cbn. intuition (try discriminate; try congruence).
+      * cbn. rewrite Eg. intros fh X Y. inversion X; subst fh. vm_compute in Y. discriminate Y.
+    + mr. cbn [fst ret]. apply niu_nici. revert Hn Hu. unp. cbn. intuition.
 Qed.
 
 Lemma ub_true : forall s,
@@ -365,8 +394,11 @@ Proof.
        (if early then ret false
         else ok <- checksum_verify;;
              (if ok then ret true
-              else fh <- declare_fault C_CHECKSUM_FAILURE;;
-                   (if negb (fh =? FH_IGNORE) then ret false else start_check_limit_handling;;; ret false))))
+              else c <- gets d_cfg;;
+                   match get_fault_handler (l_faults c) C_CHECKSUM_FAILURE with
+                   | Some fh => if fh =? FH_IGNORE then start_check_limit_handling;;; ret false else ret false
+                   | None => ret false
+                   end)))
       (fun b s' => NI s' \/ (b = true /\ VU s')) NI).
     { intros HC s H Hub. apply HC. split; assumption. }
     intros p ac.
@@ -383,17 +415,18 @@ Proof.
         intros s [X Y]. cbn. split; [exact X | intros _; exact Y].
     + intros [|]; [intros s [X _]; cbn; left; exact X|].
       apply (hoare_pre NIU); [intros s [X Y]; split; [exact X | apply Y; reflexivity]|].
-      apply (hoare_bind _ (fun (b : bool) (s' : dst) => if b then exists s, NIU s /\ s' = cvset s /\ verified s else NIUT s')).
-      * apply (hoare_post _ _ _ NIUT NI _ (fun _ _ X => X) niut_ni).
-        apply cv_spec; [apply niu_niut|]. apply (pres_pre NIUT); [apply niu_niut | apply niut_declare_fault].
+      apply (hoare_bind _ (fun (b : bool) (s' : dst) => if b then exists s, NIU s /\ s' = cvset s /\ verified s else NICI s')).
+      * apply (hoare_post _ _ _ NICI NI _ (fun _ _ X => X) nici_ni).
+        apply cv_spec; [apply niu_nici | apply df_cfg_ignore].
       * intros [|].
         { intros s' (s & [_ Hu] & -> & Hv). cbn. right. split; [reflexivity | apply cvset_vu; assumption]. }
-        apply (hoare_bind _ (fun fh s' => NI s' /\ ((fh =? FH_IGNORE) = true -> U s'))); [apply df_ignore|].
-        intros fh. destruct (fh =? FH_IGNORE); cbn [negb].
-        { apply (hoare_pre NIU); [intros s [X Y]; split; [exact X | apply Y; reflexivity]|].
-          apply (hoare_post _ (fun _ => NI) _ NI); [intros; left; assumption | trivial |].
-          apply pres_hoare. apply (pres_bind _ NI _); [apply ni_start_check_limit_handling | trivial | intros _; apply pres_ret]. }
-        intros s [X _]. cbn. left. exact X.
+        intros s [Hn Hy]. rewrite b_gets.
+        destruct (get_fault_handler (l_faults (d_cfg s)) C_CHECKSUM_FAILURE) as [fh|] eqn:Eg; [|cbn; left; exact Hn].
+        destruct (fh =? FH_IGNORE) eqn:Ef; [|cbn; left; exact Hn].
+        refine ((_ : hoare NIU _ (fun b s' => NI s' \/ (b = true /\ VU s')) NI) s _);
+          [|split; [exact Hn | apply (Hy fh eq_refl Ef)]].
+        apply (hoare_post _ (fun _ => NI) _ NI); [intros; left; assumption | trivial |].
+        apply pres_hoare. apply (pres_bind _ NI _); [apply ni_start_check_limit_handling | trivial | intros _; apply pres_ret].
   - revert s H Hub.
     cut (forall p ac, pres NI NI
       (early <-
@@ -714,6 +747,7 @@ Lemma inv_state_machine : forall pkt, pres c01_inv c01_inv (Dest.state_machine p
 Proof.
   intro pkt. unfold Dest.state_machine.
   apply (pres_bind _ c01_inv _); [destruct pkt; [apply inv_check_inserted_packet | apply pres_ret] | trivial | intros _].
+  apply pres_catch_abandoned.
   apply (pres_bind _ c01_inv _); [apply pres_get | trivial | intros s0].
   apply (pres_bind _ c01_inv _); [| trivial | intros stop].
   - destruct (d_state s0 =? ST_IDLE); [|apply pres_ret].
@@ -1080,7 +1114,7 @@ Section After.
     - destruct (fh =? FH_CANCEL); [apply (pres_post _ Bt); [apply Bt_Jt | apply bt_notice_of_cancellation, Hc]|].
       destruct (fh =? FH_ABANDON); [apply (pres_post _ Rt); [apply Rt_Jt | apply (pres_pre Jt); [apply Bt_Jt | apply jt_reset]]|].
       apply (pres_post _ Bt); [apply Bt_Jt | apply pres_ret].
-    - intros _. apply (pres_bind _ Jt _); [| trivial | intros _; apply pres_ret].
+    - intros _. apply (pres_bind _ Jt _); [| trivial | intros _; destruct (fh =? FH_ABANDON); [apply pres_raise | apply pres_ret]].
       intros s [H|(H1 & H2 & H4)]; [left; apply bt_emit; [reflexivity | exact H]|].
       right. split; [exact H1 | split; [exact H2 | apply core_emit; [reflexivity | exact H4]]].
   Qed.
@@ -1203,7 +1237,7 @@ Section After.
     intros s H _. refine ((_ : pres Bt Jt _) s H).
     apply bj_handle_waiting_for_finished_ack.
     destruct fuel as [|k]; [apply pres_raise|].
-    specialize (IH k eq_refl).
+    specialize (IH k eq_refl). apply pres_catch_abandoned.
     apply (pres_bind _ Jt _); [apply pres_get | trivial | intros s1].
     destruct (d_state s1 =? ST_BUSY); [rewrite when_true; exact IH | rewrite when_false; apply pres_ret].
   Qed.
